@@ -160,6 +160,20 @@ pub fn ser<G: SerdeGlue>(f: Fmt, raw: &Value) -> Option<SerObs> {
     }
     o.bytes_t = Some(bt);
     o.bytes_inner = Some(bi);
+    for p in [Pos::VecElem, Pos::OptionSome, Pos::StructField, Pos::MapValue] {
+        let one = |out: &mut Vec<Vec<u8>>| -> Result<Vec<u8>, String> { out.pop().ok_or_else(|| "serialization failed".to_string()) };
+        let mut a = Vec::new();
+        let r = guarded(|| pos_docs(f, p, || G::t_make(raw).expect("constructible"), &mut a));
+        let bt = if r.is_err() { Err("PANIC".to_string()) } else { one(&mut a) };
+        let mut b = Vec::new();
+        pos_docs(f, p, || <G::I as Conv>::from_value(&stored), &mut b);
+        let bi = one(&mut b);
+        let mut c = Vec::new();
+        pos_docs(f, p, || G::r_make(Conv::from_value(&stored)), &mut c);
+        let br = one(&mut c);
+        let back = bt.as_ref().ok().map(|bytes| de::<G>(f, p, bytes));
+        o.nested.push((p, bt, bi, br, back));
+    }
     Some(o)
 }
 
